@@ -71,7 +71,7 @@ def run_for(ctx, pid, num_quick=160, num_thorough=4000, check_bytes=True):
                            "recording": d.rec})
 
 
-def trace_leg(ctx, pid, with_repo_tests=True):
+def trace_leg(ctx, pid, with_repo_tests=True, spec="BackendTrace"):
     """Leg T: real record() executions at realistic sizes (1024 branches, 8 taps), and the repository's own voltage
     tests, recorded by harness/record.py and validated against BackendTrace.tla."""
     import subprocess
@@ -105,9 +105,10 @@ def trace_leg(ctx, pid, with_repo_tests=True):
                 s_.add_noise(0, 1)
             T = taps * U
             bps = 2 * pols * bits // 8
-            be = v_backend.RawVoltageBackend(src, digitizer=v_q.RealQuantizer(target_fwhm=32, num_bits=8),
+            pd, pr = int(rng.choice([1, 1, -1, 0, 2, 3, 5])), int(rng.choice([1, 1, -1, 2, 4]))
+            be = v_backend.RawVoltageBackend(src, digitizer=v_q.RealQuantizer(target_fwhm=32, num_bits=8, stats_calc_period=pd),
                                              filterbank=v_pfb.PolyphaseFilterbank(num_taps=taps, num_branches=B),
-                                             requantizer=v_q.ComplexQuantizer(target_fwhm=32 if bits == 8 else 5, num_bits=bits),
+                                             requantizer=v_q.ComplexQuantizer(target_fwhm=32 if bits == 8 else 5, num_bits=bits, stats_calc_period=pr),
                                              start_chan=0, num_chans=nch, block_size=nant * nch * T * bps, blocks_per_file=bpf, num_subblocks=S)
             be.record(os.path.join(work, "t%d" % k), num_blocks=blocks, length_mode="num_blocks", header_dict={}, load_template=False, verbose=False)
             if k % 3 == 0:      # a second recording on the same backend (num_subblocks already updated, antenna clock moved on)
@@ -137,8 +138,8 @@ def trace_leg(ctx, pid, with_repo_tests=True):
             raise RuntimeError("recording the repository's voltage tests failed:\n" + p.stdout[-1500:])
     if not traces:
         raise RuntimeError("no record() traces were captured")
-    ok, rejects, res = trace.validate("BackendTrace", "BackendTrace.cfg", traces, ctx.outdir)
-    ctx.add_tlc(res, "BackendTrace (%d record() executions)" % len(traces), "T-validate")
+    ok, rejects, res = trace.validate(spec, spec + ".cfg", traces, ctx.outdir)
+    ctx.add_tlc(res, "%s (%d record() executions)" % (spec, len(traces)), "T-validate")
     ctx.traces += len(traces)
     ctx.steps += sum(len(t) for t in traces)
     ctx.sample({"leg": "T", "origin": origin[0], "trace_head": traces[0][:5]})
@@ -150,7 +151,7 @@ def trace_leg(ctx, pid, with_repo_tests=True):
         ev = t[rj["at"] - 1] if rj["at"] - 1 < len(t) else {"e": "missing"}
         args = dict(t[0])
         args.update({"action": "RecordTrace", "origin": origin[rj["reject"] - 1], "event": ev.get("e")})
-        ctx.violation(MODULE, "trace-reject:" + str(ev.get("e")), args, {"begin": t[0], "position": rj["at"], "rejected_event": ev,
+        ctx.violation(MODULE if spec == "BackendTrace" else "Quantizer", "trace-reject:" + str(ev.get("e")), args, {"begin": t[0], "position": rj["at"], "rejected_event": ev,
                                                                         "previous_events": t[max(0, rj["at"] - 5):rj["at"] - 1]})
 
 
